@@ -2,7 +2,8 @@
 # Variants: plain (g++, the flags the project ships with) and asan (clang++ ASan+UBSan, used by C17).
 REPO      ?= /repo
 V         ?= plain
-B         := build/$(V)
+BUILD     ?= build
+B         := $(BUILD)/$(V)
 
 REPO_SRCS := $(shell find $(REPO)/src -name '*.cpp' | sort)
 SIM_SRCS  := $(sort $(wildcard sim/*.cpp))
